@@ -40,10 +40,13 @@ class DictDecoder:
             An instance of the specified class representing the decoded content.
         """
         tp = self.verify_type(clazz, data)
-        if not isinstance(data, list):
-            return self.bind_dataclass(data, tp)
+        try:
+            if not isinstance(data, list):
+                return self.bind_dataclass(data, tp)
 
-        return [self.bind_dataclass(obj, tp) for obj in data]  # type: ignore
+            return [self.bind_dataclass(obj, tp) for obj in data]  # type: ignore
+        except RecursionError as e:
+            raise ParserError(e)
 
     def verify_type(self, clazz: type[T] | None, data: dict | list) -> type[T]:
         """Verify the given data matches the given clazz.
